@@ -270,12 +270,12 @@ class Extractor:
             self._cv[key] = cv
         return self._cv[key]
 
-    def rewrite(self, text, local_rw, where):
-        for name, rx, repl, why in GLOBAL_REWRITES:
+    def rewrite(self, text, local_rw, where, global_rw=True):
+        for name, rx, repl, why in (GLOBAL_REWRITES if global_rw else []):
             text, n = rx.subn(repl, text)
             if n:
                 self.log["rewrites"].setdefault(name, {"hits": 0, "why": why})["hits"] += n
-        text, n8 = rewrite_assert_macros(text)
+        text, n8 = rewrite_assert_macros(text) if global_rw else (text, 0)
         if n8:
             self.log["rewrites"].setdefault("R8", {"hits": 0, "why": rewrite_assert_macros.__doc__.strip()})["hits"] += n8
         for frm, to, optional in local_rw:
@@ -405,6 +405,53 @@ class Extractor:
         self.log["items"].append({"kind": kind, "file": rel, "selector": name, "lines": [line_of(src, a), line_of(src, e)]})
         return text
 
+    def do_file(self, head, sections):
+        """Whole source file minus its #[cfg(test)] modules, its `use crate::..;` / `use super::..;` imports and its
+        inner attributes (the template supplies the surroundings). Everything else is the repository's text."""
+        m = re.match(r"extract file (\S+)$", head)
+        if not m:
+            raise ExtractError(f"bad directive: {head}")
+        rel = m.group(1)
+        src, masked, _ = self.load(rel)
+        # spans to drop (found on the masked text so comments / strings cannot confuse it)
+        drops = []
+        # test modules were blanked in `masked` by load(); find the blanked spans by comparing against a fresh mask
+        fresh = mask(src, keep_strings=False)
+        i = 0
+        n = len(src)
+        while i < n:
+            if fresh[i] != masked[i]:
+                j = i
+                while j < n and (fresh[j] != masked[j] or masked[j] in " \n\t"):
+                    j += 1
+                drops.append((i, j, "test module"))
+                i = j
+            else:
+                i += 1
+        for mm in re.finditer(r"(?m)^[ \t]*(pub(\([^)]*\))?\s+)?use\s+(crate|super)\b[^;]*;", masked):
+            drops.append((mm.start(), mm.end(), "crate import"))
+        for mm in re.finditer(r"(?m)^[ \t]*#!\[", masked):
+            e = match_close(masked, mm.end() - 1)
+            drops.append((mm.start(), e + 1, "inner attribute"))
+        drops.sort()
+        text, local_rw = self.apply_sections(src, masked, 0, len(src), sections)
+        # apply_sections returns the spliced text of src[0:len]; drops are applied on the unspliced text only
+        if text != src:
+            raise ExtractError(f"{rel}: `extract file` supports rewrite sections only")
+        out = []
+        pos = 0
+        for a, b, _why in drops:
+            if a < pos:
+                continue
+            out.append(src[pos:a])
+            pos = b
+        out.append(src[pos:])
+        text = "".join(out)
+        text = self.rewrite(text, local_rw, f"{rel}::<file>", global_rw=False)
+        self.log["items"].append({"kind": "file", "file": rel, "selector": "<whole file>", "lines": [1, src.count("\n") + 1],
+                                  "dropped": [f"{why} (lines {line_of(src, a)}-{line_of(src, b)})" for a, b, why in drops]})
+        return text
+
     def assemble(self, template_text):
         parts = parse_template(template_text)
         out = []
@@ -422,6 +469,8 @@ class Extractor:
                     txt = self.do_block(head, val["sections"])
                 elif head.startswith("extract item "):
                     txt = self.do_item(head, val["sections"])
+                elif head.startswith("extract file "):
+                    txt = self.do_file(head, val["sections"])
                 else:
                     raise ExtractError(f"unknown extract kind: {head}")
                 n = txt.count("\n") + 1
